@@ -246,6 +246,13 @@ class Check:
 
 
 def main_for(pid, body, level='model_checking'):
+    try:
+        import torch
+
+        # torchtree's command line runs in float64 by default; replays on plain tensors do the same
+        torch.set_default_dtype(torch.float64)
+    except Exception:
+        pass
     chk = Check(pid, level)
     try:
         body(chk)
